@@ -1,5 +1,94 @@
-import PatchModel.Spec.Script
+/-
+  C17 (driver model) — file modes are preserved and refusals leave files untouched.
+-/
+import PatchModel.Model.Driver
+import PatchModel.Lemmas.Fault
+import PatchModel.Lemmas.Modes
 namespace PatchModel.C17
-/-- placeholder until the driver model's theorems are in (see DESIGN.md section 5/C17) -/
-theorem placeholder : True := trivial
+open PatchModel PatchModel.Fault PatchModel.Modes
+
+/-- a read-only target with --read-only=fail is refused before anything is touched: no operation, tree unchanged -/
+theorem readonly_fail_untouched (o : Options) (p : Bytes) (s : DState) (m : Nat) (b : Bytes)
+    (hro : o.readOnly = .fail) (hfile : s.fs.stat (absPath s p) = some (.file b m)) (hnow : m &&& writeMask = 0) :
+    ∃ s', (fixPermissionsIfNeeded o p).run s = (.ok { oldPerms := some m, needFix := true, hadFailure := true }, s') ∧
+      s'.fs = s.fs ∧ s'.trace = s.trace := by
+  refine ⟨{ s with out := s.out ++ [.readOnly] }, ?_, rfl, rfl⟩
+  show run (fixPermissionsIfNeeded o p) s = _
+  unfold fixPermissionsIfNeeded
+  rw [run_bind_ok (run_fsGetPerms_file hfile)]
+  simp only [needFix_true hnow, hro]
+  rfl
+
+/-- a writable target is left alone by the permission check -/
+theorem writable_untouched (o : Options) (p : Bytes) (s : DState) (m : Nat) (b : Bytes)
+    (hfile : s.fs.stat (absPath s p) = some (.file b m)) (hw : m &&& writeMask ≠ 0) :
+    (fixPermissionsIfNeeded o p).run s = (.ok { oldPerms := some m, needFix := false, hadFailure := false }, s) := by
+  show run (fixPermissionsIfNeeded o p) s = _
+  unfold fixPermissionsIfNeeded
+  rw [run_bind_ok (run_fsGetPerms_file hfile)]
+  simp only [needFix_false hw]
+  rfl
+
+/-- after the patched result has been written, the permission callback gives the file exactly the mode a git header asks for, or else
+    the mode the target had before (also when it had to be made writable, and also when a backup renamed the original away) -/
+theorem callback_mode (newMode : Nat) (perm : PermResult) (p : Bytes) (s : DState) (b : Bytes) (m0 : Nat)
+    (hfile : s.fs.lookup (absPath s p) = some (.file b m0)) (hf : s.faultAt = none) :
+    ∃ s', (permissionCallback newMode perm p).run s = (.ok (), s') ∧
+      s'.fs.lookup (absPath s p) = some (.file b
+        (if newMode != 0 then newMode &&& 0o7777 else match perm.oldPerms with | some m => m | none => m0)) := by
+  show ∃ s', run (permissionCallback newMode perm p) s = _ ∧ _
+  unfold permissionCallback
+  by_cases hn : (newMode != 0) = true
+  · simp only [hn, if_true]
+    exact ⟨_, run_opChmod_file _ hfile hf, lookup_set_self ..⟩
+  · simp only [hn]
+    cases perm.oldPerms with
+    | some m => exact ⟨_, run_opChmod_file _ hfile hf, lookup_set_self ..⟩
+    | none => exact ⟨s, rfl, hfile⟩
+
+/-- refusing a patch touches nothing but the reject file and the directories leading to it — never the target -/
+theorem refuse_touches_only_rejects (o : Options) (outputFile : Bytes) (p : Patch) (s s' : DState) (r : Except Exn Unit)
+    (h : (refuseToPatch o outputFile p).run s = (r, s')) :
+    ∃ ops, s'.trace = s.trace ++ ops ∧
+      ∀ op ∈ ops, ∀ q ∈ op.paths, q = absPath s (rejectPath o outputFile) ∨ ∃ d ∈ dirPrefixes (rejectPath o outputFile), q = absPath s d := by
+  have key : Touches (fun q => q = absPath s (rejectPath o outputFile) ∨
+      ∃ d ∈ dirPrefixes (rejectPath o outputFile), q = absPath s d) s (run (refuseToPatch o outputFile p) s).2 := by
+    unfold refuseToPatch
+    refine touches_bind (Foot.emit _ s) fun _ s1 h1 => ?_
+    split
+    · refine touches_bind (Foot.emit _ s1) fun _ s2 h2 => ?_
+      have c2 : s2.cwd = s.cwd := h2.1.trans h1.1
+      refine touches_bind ?_ fun _ s3 h3 => ?_
+      · refine (touches_ensureParentDirs _ s2).mono fun q hq => .inr ?_
+        obtain ⟨d, hd, e⟩ := hq
+        exact ⟨d, hd, by rw [e, absPath_cwd c2]⟩
+      have c3 : s3.cwd = s.cwd := h3.1.trans c2
+      refine touches_bind (touches_opCreat _ s3 (.inl (absPath_cwd c3 _))) fun _ s4 h4 => ?_
+      have c4 : s4.cwd = s.cwd := h4.1.trans c3
+      split
+      · exact Touches.refl s4
+      · exact touches_opWrite _ _ s4 (.inl (absPath_cwd c4 _))
+    · exact Foot.emit _ s1
+  have e : (run (refuseToPatch o outputFile p) s).2 = s' := by
+    show ((refuseToPatch o outputFile p).run s).2 = s'
+    rw [h]
+  rw [e] at key
+  exact key.2
+
+/-- with --dry-run a refusal touches nothing at all -/
+theorem refuse_dry (o : Options) (outputFile : Bytes) (p : Patch) (s : DState) (hd : o.dryRun = true) :
+    ∃ s', (refuseToPatch o outputFile p).run s = (.ok (), s') ∧ s'.fs = s.fs ∧ s'.trace = s.trace := by
+  refine ⟨{ s with out := s.out ++ [.refusing] ++ [.failed p.hunks.length p.hunks.length true none] }, ?_, rfl, rfl⟩
+  show run (refuseToPatch o outputFile p) s = _
+  unfold refuseToPatch
+  rw [run_bind_ok (run_emit _ s)]
+  simp only [hd]
+  rfl
+
+#print axioms readonly_fail_untouched
+#print axioms writable_untouched
+#print axioms callback_mode
+#print axioms refuse_touches_only_rejects
+#print axioms refuse_dry
+
 end PatchModel.C17
